@@ -125,15 +125,16 @@ func main() {
 	if !replay {
 		opts.MinNontrivial = c.N(40, 1000)
 		opts.MinCounters = map[string]int64{
-			"barrier_generations":                  200,
-			"barrier_generations_late_100":         30,
-			"waitcnt_had_to_stall":                 200,
-			"waitcnt_nonzero_outstanding_at_issue": 200,
+			"barrier_generations":                   200,
+			"barrier_generations_late_100":          30,
+			"waitcnt_had_to_stall":                  200,
+			"waitcnt_nonzero_outstanding_at_issue":  200,
 			"endpgm_issued_with_memory_outstanding": 50,
-			"wg_results_checked_at_completion":     100,
-			"early_exit_cases_completed":           3,
-			"output_words_compared":                10000,
-			"e2e_runs_compared":                    4,
+			"wg_results_checked_at_completion":      100,
+			"early_exit_cases":                      8,
+			"early_exit_cases_completed":            3,
+			"output_words_compared":                 10000,
+			"e2e_runs_compared":                     4,
 		}
 		if os.Getenv("C14_NO_E2E") != "" || os.Getenv("C14_ONLY_CANONICAL") != "" {
 			opts.MinCounters = nil
